@@ -2046,4 +2046,240 @@ theorem rsamd5Fed_eq_decode (chunk : Nat) (h4 : chunk % 4 = 0) (hpos : 0 < chunk
         · subst hr; simp [strip]
         · exact (decode_prefix_stops (chunk / 4) A hnlA (hgroups hr) (by intro hh; rw [hok'] at hh; cases hh.1) (strip rest)).symm
 
+/-! ### VerifyRRSIGWithWork under a governor -/
+
+/-- `g'` allows at least what `g` allows. -/
+def govLe (g g' : Gov) : Prop := g.maxCand ≤ g'.maxCand ∧ g.maxSet ≤ g'.maxSet ∧ g.budget ≤ g'.budget
+
+theorem candLoop_bounds (cvOk : VKey → Bool) (g : Gov) : ∀ (l : List VKey) (cu ru b : Nat), b ≤ g.budget →
+    b ≤ (candLoop cvOk g l cu ru b).2.1 ∧ (candLoop cvOk g l cu ru b).2.1 ≤ g.budget ∧
+      (candLoop cvOk g l cu ru b).2.1 ≤ b + l.length := by
+  intro l
+  induction l with
+  | nil => intro cu ru b h; simp [candLoop]; omega
+  | cons k t ih =>
+    intro cu ru b h
+    unfold candLoop
+    by_cases h1 : g.maxCand ≤ cu
+    · simp [h1]; omega
+    · by_cases h2 : g.maxSet ≤ ru
+      · simp [h1, h2]; omega
+      · by_cases h3 : g.budget ≤ b
+        · simp [h1, h2, h3]; omega
+        · by_cases h4 : cvOk k = true
+          · simp [h1, h2, h3, h4]; omega
+          · simp only [h1, h2, h3, h4, if_false, Bool.false_eq_true]
+            have := ih (cu + 1) (ru + 1) (b + 1) (by omega)
+            simp only [List.length_cons]; omega
+
+theorem candLoop_mono (cvOk : VKey → Bool) (g g' : Gov) (hle : govLe g g') : ∀ (l : List VKey) (cu ru b : Nat),
+    (candLoop cvOk g l cu ru b).1 ≠ WRes.work → candLoop cvOk g' l cu ru b = candLoop cvOk g l cu ru b := by
+  intro l
+  induction l with
+  | nil => intro cu ru b _; simp [candLoop]
+  | cons k t ih =>
+    intro cu ru b h
+    unfold candLoop at h ⊢
+    obtain ⟨l1, l2, l3⟩ := hle
+    by_cases h1 : g.maxCand ≤ cu
+    · simp [h1] at h
+    · by_cases h2 : g.maxSet ≤ ru
+      · simp [h1, h2] at h
+      · by_cases h3 : g.budget ≤ b
+        · simp [h1, h2, h3] at h
+        · have h1' : ¬ g'.maxCand ≤ cu := by omega
+          have h2' : ¬ g'.maxSet ≤ ru := by omega
+          have h3' : ¬ g'.budget ≤ b := by omega
+          by_cases h4 : cvOk k = true
+          · simp [h1, h2, h3, h1', h2', h3', h4]
+          · simp only [h1, h2, h3, h1', h2', h3', h4, if_false, Bool.false_eq_true] at h ⊢
+            exact ih _ _ _ h
+
+/-- without a work error the candidate loop says whether some candidate verifies. -/
+theorem candLoop_verdict (cvOk : VKey → Bool) (g : Gov) : ∀ (l : List VKey) (cu ru b : Nat),
+    (candLoop cvOk g l cu ru b).1 ≠ WRes.work →
+      ((candLoop cvOk g l cu ru b).1 = WRes.ok ↔ ∃ k ∈ l, cvOk k = true) := by
+  intro l
+  induction l with
+  | nil => intro cu ru b _; simp [candLoop]
+  | cons k t ih =>
+    intro cu ru b h
+    unfold candLoop at h ⊢
+    by_cases h1 : g.maxCand ≤ cu
+    · simp [h1] at h
+    · by_cases h2 : g.maxSet ≤ ru
+      · simp [h1, h2] at h
+      · by_cases h3 : g.budget ≤ b
+        · simp [h1, h2, h3] at h
+        · by_cases h4 : cvOk k = true
+          · simp [h1, h2, h3, h4]
+          · simp only [h1, h2, h3, h4, if_false, Bool.false_eq_true] at h ⊢
+            rw [ih _ _ _ h]
+            simp [h4]
+
+section
+variable (cv : VKey → VSig → List VRec → Verdict) (inPeriod : VSig → Bool) (supAlg : Nat → Bool) (tagOf : VKey → Nat)
+  (keys : List VKey)
+
+theorem oneSigWork_bounds (g : Gov) (set : List VRec) (sig : VSig) (ru b : Nat) (h : b ≤ g.budget) :
+    b ≤ (oneSigWork cv inPeriod supAlg tagOf keys g set sig ru b).2.1 ∧
+      (oneSigWork cv inPeriod supAlg tagOf keys g set sig ru b).2.1 ≤ g.budget := by
+  unfold oneSigWork
+  simp only
+  split
+  · simp; exact h
+  · split
+    · simp; exact h
+    · split
+      · simp; exact h
+      · split
+        · simp; exact h
+        · split
+          · simp; exact h
+          · exact ⟨(candLoop_bounds _ g _ 0 ru b h).1, (candLoop_bounds _ g _ 0 ru b h).2.1⟩
+
+theorem oneSigWork_mono (g g' : Gov) (hle : govLe g g') (set : List VRec) (sig : VSig) (ru b : Nat)
+    (h : (oneSigWork cv inPeriod supAlg tagOf keys g set sig ru b).1 ≠ WRes.work) :
+    oneSigWork cv inPeriod supAlg tagOf keys g' set sig ru b = oneSigWork cv inPeriod supAlg tagOf keys g set sig ru b := by
+  unfold oneSigWork at h ⊢
+  simp only at h ⊢
+  split
+  · rfl
+  · split
+    · rfl
+    · split
+      · rfl
+      · split
+        · rfl
+        · split
+          · rfl
+          · rename_i h1 h2 h3 h4 h5
+            simp only [h1, h2, h3, h4, h5, if_false] at h
+            exact candLoop_mono _ g g' hle _ 0 ru b h
+end
+
+theorem sigLoop_bounds (one : VSig → Nat → Nat → WRes × Nat × Nat) (B : Nat)
+    (hone : ∀ s ru b, b ≤ B → b ≤ (one s ru b).2.1 ∧ (one s ru b).2.1 ≤ B) : ∀ (l : List VSig) (ru b : Nat), b ≤ B →
+    b ≤ (sigLoop one l ru b).2 ∧ (sigLoop one l ru b).2 ≤ B := by
+  intro l
+  induction l with
+  | nil => intro ru b h; simp [sigLoop]; exact h
+  | cons s t ih =>
+    intro ru b h
+    unfold sigLoop
+    have hb := hone s ru b h
+    rcases hr : one s ru b with ⟨r, b', ru'⟩
+    rw [hr] at hb
+    cases r with
+    | ok => simpa using hb
+    | work => simpa using hb
+    | fail =>
+      simp only
+      have := ih ru' b' hb.2
+      exact ⟨Nat.le_trans hb.1 this.1, this.2⟩
+
+theorem sigLoop_mono (one one' : VSig → Nat → Nat → WRes × Nat × Nat)
+    (hone : ∀ s ru b, (one s ru b).1 ≠ WRes.work → one' s ru b = one s ru b) : ∀ (l : List VSig) (ru b : Nat),
+    (sigLoop one l ru b).1 ≠ WRes.work → sigLoop one' l ru b = sigLoop one l ru b := by
+  intro l
+  induction l with
+  | nil => intro ru b _; simp [sigLoop]
+  | cons s t ih =>
+    intro ru b h
+    unfold sigLoop at h ⊢
+    rcases hr : one s ru b with ⟨r, b', ru'⟩
+    rw [hr] at h
+    cases r with
+    | ok => rw [hone s ru b (by rw [hr]; simp), hr]
+    | work => simp at h
+    | fail =>
+      rw [hone s ru b (by rw [hr]; simp), hr]
+      simp only at h ⊢
+      exact ih ru' b' h
+
+theorem groupLoop_bounds (per : (Bytes × Nat × Nat) → Nat → WRes × Nat) (B : Nat)
+    (hper : ∀ k b, b ≤ B → b ≤ (per k b).2 ∧ (per k b).2 ≤ B) : ∀ (l : List (Bytes × Nat × Nat)) (b : Nat), b ≤ B →
+    b ≤ (groupLoop per l b).2 ∧ (groupLoop per l b).2 ≤ B := by
+  intro l
+  induction l with
+  | nil => intro b h; simp [groupLoop]; exact h
+  | cons k t ih =>
+    intro b h
+    unfold groupLoop
+    have hb := hper k b h
+    rcases hr : per k b with ⟨r, b'⟩
+    rw [hr] at hb
+    cases r with
+    | ok => simp only; have := ih b' hb.2; exact ⟨Nat.le_trans hb.1 this.1, this.2⟩
+    | work => simpa using hb
+    | fail => simpa using hb
+
+theorem groupLoop_mono (per per' : (Bytes × Nat × Nat) → Nat → WRes × Nat)
+    (hper : ∀ k b, (per k b).1 ≠ WRes.work → per' k b = per k b) : ∀ (l : List (Bytes × Nat × Nat)) (b : Nat),
+    (groupLoop per l b).1 ≠ WRes.work → groupLoop per' l b = groupLoop per l b := by
+  intro l
+  induction l with
+  | nil => intro b _; simp [groupLoop]
+  | cons k t ih =>
+    intro b h
+    unfold groupLoop at h ⊢
+    rcases hr : per k b with ⟨r, b'⟩
+    rw [hr] at h
+    cases r with
+    | ok => rw [hper k b (by rw [hr]; simp), hr]; simp only at h ⊢; exact ih b' h
+    | work => simp at h
+    | fail => rw [hper k b (by rw [hr]; simp), hr]
+
+section
+variable (cv : VKey → VSig → List VRec → Verdict) (inPeriod : VSig → Bool) (supAlg : Nat → Bool) (tagOf : VKey → Nat)
+  (keys : List VKey)
+
+/-- never more public-key operations than the budget. -/
+theorem verifyRRSIGWork_budget (g : Gov) (zone : Bytes) (m : VMsg) :
+    (verifyRRSIGWork cv inPeriod supAlg tagOf keys g zone m).2 ≤ g.budget := by
+  unfold verifyRRSIGWork
+  simp only
+  split
+  · simp
+  · split
+    · simp
+    · split
+      · simp
+      · split
+        · simp
+        · apply (groupLoop_bounds _ g.budget _ _ 0 (Nat.zero_le _)).2
+          intro k b hb
+          split
+          · exact ⟨Nat.le_refl _, hb⟩
+          · split
+            · exact ⟨Nat.le_refl _, hb⟩
+            · exact sigLoop_bounds _ g.budget (fun s ru b h => oneSigWork_bounds cv inPeriod supAlg tagOf keys g _ s ru b h) _ 0 b hb
+
+/-- a more generous governor changes nothing unless the tighter one refused. -/
+theorem verifyRRSIGWork_mono (g g' : Gov) (hle : govLe g g') (zone : Bytes) (m : VMsg)
+    (h : (verifyRRSIGWork cv inPeriod supAlg tagOf keys g zone m).1 ≠ WRes.work) :
+    verifyRRSIGWork cv inPeriod supAlg tagOf keys g' zone m = verifyRRSIGWork cv inPeriod supAlg tagOf keys g zone m := by
+  unfold verifyRRSIGWork at h ⊢
+  simp only at h ⊢
+  split
+  · rfl
+  · split
+    · rfl
+    · split
+      · rfl
+      · split
+        · rfl
+        · rename_i h1 h2 h3 h4
+          simp only [h1, h2, h3, h4, if_false] at h
+          apply groupLoop_mono _ _ _ _ 0 h
+          intro k b hk
+          split
+          · rfl
+          · split
+            · rfl
+            · rename_i h5 h6
+              simp only [h5, h6, if_false] at hk
+              exact sigLoop_mono _ _ (fun s ru b hs => oneSigWork_mono cv inPeriod supAlg tagOf keys g g' hle _ s ru b hs) _ 0 b hk
+end
+
 end SdnsVerif.Lemmas.DnssecPrim
